@@ -1,1 +1,393 @@
-From Lou Require Import Model.Pass.
+(* C06 — the lemmas used by Properties/C06.v: the pass chains, the first-match scanner, the shape
+   of accepted matches, the literal action, map composition and two driver facts.             *)
+From Coq Require Import List ZArith Bool Lia ZifyBool Permutation Sorted.
+From Lou Require Import Gen.GConst Gen.GChain Model.Table Model.Ref Model.Compile Model.Engine Model.Pass Model.BackPass.
+From Lou Require Import Proofs.EngineLoop.
+Import ListNotations.
+Local Open Scope Z_scope.
+
+(* ------------------------------------------------------------------ the chain is a permutation *)
+
+Lemma pass_insert_perm new c : Permutation (pass_insert new c) (new :: c).
+Proof.
+  induction c as [|r c IH]; cbn [pass_insert]; [apply Permutation_refl|].
+  destruct (fwd_pass_before (litlen new) (litlen r)); [apply Permutation_refl|].
+  eapply perm_trans; [apply perm_skip; exact IH|apply perm_swap].
+Qed.
+
+Lemma fold_insert_perm rules : forall acc,
+  Permutation (fold_left (fun c r => pass_insert r c) rules acc) (acc ++ rules).
+Proof.
+  induction rules as [|r rules IH]; intros acc; cbn [fold_left].
+  - rewrite app_nil_r. apply Permutation_refl.
+  - eapply perm_trans; [apply IH|].
+    eapply perm_trans; [apply Permutation_app_tail; apply pass_insert_perm|].
+    cbn [app]. apply Permutation_middle.
+Qed.
+
+Lemma chain_perm_l : forall rules, Permutation (pass_chain rules) rules.
+Proof. intros rules. unfold pass_chain. exact (fold_insert_perm rules []). Qed.
+
+(* ------------------------------------------------------------------ the chain is ordered *)
+
+Definition before (a b : prule) : Prop :=
+  litlen a > litlen b \/ (litlen a = litlen b /\ p_idx a < p_idx b).
+
+Definition idx_before (a b : prule) : Prop := p_idx a < p_idx b.
+
+Lemma pass_insert_in new c x : In x (pass_insert new c) <-> x = new \/ In x c.
+Proof.
+  split.
+  - intros H. apply (Permutation_in _ (pass_insert_perm new c)) in H.
+    destruct H as [H|H]; [left; symmetry; exact H|right; exact H].
+  - intros H. apply (Permutation_in _ (Permutation_sym (pass_insert_perm new c))).
+    destruct H as [H|H]; [left; symmetry; exact H|right; exact H].
+Qed.
+
+Lemma pass_insert_sorted new : forall c,
+  StronglySorted before c -> (forall x, In x c -> p_idx x < p_idx new) ->
+  StronglySorted before (pass_insert new c).
+Proof.
+  induction c as [|r c IH]; intros Hs Hi; cbn [pass_insert].
+  - constructor; constructor.
+  - (* the generated insertion condition of addForwardPassRule *)
+    unfold fwd_pass_before.
+    inversion Hs as [|r0 c0 Hs' Hf]; subst.
+    rewrite Forall_forall in Hf.
+    destruct (litlen new >? litlen r) eqn:E.
+    + constructor; [exact Hs|]. constructor.
+      * left. lia.
+      * rewrite Forall_forall. intros x Hx. specialize (Hf x Hx). unfold before in Hf. left. lia.
+    + constructor.
+      * apply IH; [exact Hs'|]. intros x Hx. apply Hi. right. exact Hx.
+      * rewrite Forall_forall. intros x Hx. apply pass_insert_in in Hx.
+        destruct Hx as [->|Hx]; [|exact (Hf x Hx)].
+        assert (Hr : p_idx r < p_idx new) by (apply Hi; left; reflexivity).
+        unfold before. lia.
+Qed.
+
+Lemma fold_insert_sorted rules : forall acc,
+  StronglySorted before acc -> StronglySorted idx_before rules ->
+  (forall a b, In a acc -> In b rules -> p_idx a < p_idx b) ->
+  StronglySorted before (fold_left (fun c r => pass_insert r c) rules acc).
+Proof.
+  induction rules as [|r rules IH]; intros acc Hs Hr Hab; cbn [fold_left]; [exact Hs|].
+  inversion Hr as [|r0 c0 Hr' Hf]; subst. rewrite Forall_forall in Hf.
+  apply IH.
+  - apply pass_insert_sorted; [exact Hs|]. intros x Hx. apply Hab; [exact Hx|left; reflexivity].
+  - exact Hr'.
+  - intros a b Ha Hb. apply pass_insert_in in Ha. destruct Ha as [->|Ha].
+    + apply Hf. exact Hb.
+    + apply Hab; [exact Ha|right; exact Hb].
+Qed.
+
+Lemma sorted_nth {A} (R : A -> A -> Prop) (d : A) : forall l, StronglySorted R l ->
+  forall i j, (i < j < length l)%nat -> R (nth i l d) (nth j l d).
+Proof.
+  induction l as [|x l IH]; intros Hs i j Hij; [cbn [length] in Hij; lia|].
+  inversion Hs as [|x0 l0 Hs' Hf]; subst.
+  cbn [length] in Hij. destruct j as [|j]; [lia|]. destruct i as [|i]; cbn [nth].
+  - rewrite Forall_forall in Hf. apply Hf. apply nth_In. lia.
+  - apply IH; [exact Hs'|lia].
+Qed.
+
+Lemma nth_sorted {A} (R : A -> A -> Prop) (d : A) : forall l,
+  (forall i j, (i < j < length l)%nat -> R (nth i l d) (nth j l d)) -> StronglySorted R l.
+Proof.
+  induction l as [|x l IH]; intros H; constructor.
+  - apply IH. intros i j Hij. apply (H (S i) (S j)). cbn [length]. lia.
+  - rewrite Forall_forall. intros y Hy. destruct (In_nth _ _ d Hy) as (k & Hk & <-).
+    apply (H 0%nat (S k)). cbn [length]. lia.
+Qed.
+
+Lemma chain_order_l : forall rules i j,
+  (forall a b, (a < b < length rules)%nat -> p_idx (nth a rules (mkPR 0 [] AOmit)) < p_idx (nth b rules (mkPR 0 [] AOmit))) ->
+  (i < j < length (pass_chain rules))%nat ->
+  let ri := nth i (pass_chain rules) (mkPR 0 [] AOmit) in
+  let rj := nth j (pass_chain rules) (mkPR 0 [] AOmit) in
+  litlen ri > litlen rj \/ (litlen ri = litlen rj /\ p_idx ri < p_idx rj).
+Proof.
+  intros rules i j Hidx Hij ri rj. subst ri rj.
+  apply (sorted_nth before); [|exact Hij].
+  unfold pass_chain. apply fold_insert_sorted.
+  - constructor.
+  - apply (nth_sorted idx_before (mkPR 0 [] AOmit)). exact Hidx.
+  - intros a b [].
+Qed.
+
+(* ------------------------------------------------------------------ first match *)
+
+Lemma find_rule_first_l : forall inp chain pos r m,
+  find_rule inp chain pos = Some (r, m) ->
+  exists pre post, chain = pre ++ r :: post /\ pass_test inp r pos = Some m /\
+                   forall r', In r' pre -> pass_test inp r' pos = None.
+Proof.
+  intros inp chain pos r m. induction chain as [|r0 c IH]; cbn [find_rule]; [discriminate|].
+  destruct (pass_test inp r0 pos) as [m0|] eqn:Et.
+  - intros H. injection H as <- <-. exists [], c. split; [reflexivity|]. split; [exact Et|].
+    intros r' [].
+  - intros H. destruct (IH H) as (pre & post & -> & Hm & Hn).
+    exists (r0 :: pre), post. split; [reflexivity|]. split; [exact Hm|].
+    intros r' [<-|Hi]; [exact Et|exact (Hn r' Hi)].
+Qed.
+
+Lemma find_rule_none_l : forall inp chain pos,
+  find_rule inp chain pos = None -> forall r, In r chain -> pass_test inp r pos = None.
+Proof.
+  intros inp chain pos. induction chain as [|r0 c IH]; cbn [find_rule]; intros H r Hi; [destruct Hi|].
+  destruct (pass_test inp r0 pos) as [m0|] eqn:Et; [discriminate|].
+  destruct Hi as [<-|Hi]; [exact Et|exact (IH H r Hi)].
+Qed.
+
+(* ------------------------------------------------------------------ the shape of a match *)
+
+Lemma do_test_range inp : forall items pos sr er em sr' er',
+  do_test inp items pos sr er = Some (em, sr', er') -> 0 <= em <= len inp.
+Proof.
+  induction items as [|it items IH]; intros pos sr er em sr' er'; cbn [do_test];
+    destruct ((pos >? len inp) || (pos <? 0)) eqn:G; try discriminate.
+  - intros H. injection H as <- <- <-. lia.
+  - destruct it as [cs|k| |].
+    + destruct (match_current inp pos cs); [apply IH|discriminate].
+    + destruct (pos - k <? 0); [discriminate|apply IH].
+    + apply IH.
+    + apply IH.
+Qed.
+
+Lemma match_shape_l : forall inp r pos m, pass_test inp r pos = Some m ->
+  m_start m = pos /\ pos <= m_sr m /\ m_sr m <= m_er m /\ m_er m <= m_end m /\ m_end m <= len inp.
+Proof.
+  intros inp r pos m. unfold pass_test.
+  destruct (do_test inp (p_test r) pos (-1) (-1)) as [[[em sr] er]|] eqn:Et; [|discriminate].
+  apply do_test_range in Et.
+  destruct (_ || _) eqn:G; [discriminate|]. intros H. injection H as <-.
+  cbn [m_start m_sr m_er m_end].
+  destruct (sr =? -1); lia.
+Qed.
+
+(* ------------------------------------------------------------------ the literal action *)
+
+Lemma slice_len inp a b : 0 <= a -> a <= b -> b <= len inp -> len (slice inp a b) = b - a.
+Proof. unfold slice, len. intros Ha Hab Hb. rewrite firstn_length, skipn_length. lia. Qed.
+
+Lemma literal_action_l : forall inp cap r m out pm cs,
+  p_act r = ALit cs -> 0 <= m_start m -> m_start m <= m_sr m -> m_sr m <= len inp ->
+  len out + (m_sr m - m_start m) + len cs <= cap ->
+  do_action inp cap r m out pm =
+    (out ++ slice inp (m_start m) (m_sr m) ++ cs,
+     pm ++ zrange (m_start m) (m_sr m) ++ repeat (m_sr m) (length cs),
+     Some (m_er m)).
+Proof.
+  intros inp cap r m out pm cs Ha H0 H1 H2 Hc.
+  assert (Hcs : 0 <= len cs) by (unfold len; lia).
+  unfold do_action, copy_chars. rewrite Ha.
+  destruct (m_sr m >? m_start m) eqn:E.
+  - pose proof (slice_len inp (m_start m) (m_sr m) H0 H1 H2) as Hl.
+    destruct (len out + m_sr m - m_start m >? cap) eqn:E1; [lia|].
+    assert (Hl2 : len (out ++ slice inp (m_start m) (m_sr m)) = len out + (m_sr m - m_start m)).
+    { unfold len in *. rewrite app_length. lia. }
+    rewrite Hl2.
+    destruct (len out + (m_sr m - m_start m) + len cs >? cap) eqn:E2; [lia|].
+    rewrite <- !app_assoc. reflexivity.
+  - assert (He : m_sr m = m_start m) by lia. rewrite He in *.
+    destruct (len out + len cs >? cap) eqn:E2; [lia|].
+    unfold slice, zrange. rewrite Z.sub_diag. cbn [Z.to_nat firstn seq map app]. reflexivity.
+Qed.
+
+(* ------------------------------------------------------------------ composition *)
+
+Lemma compose_nth_l : forall prev stage k, (k < length stage)%nat -> 0 <= nth k stage 0 ->
+  nth k (compose_fwd prev stage) 0 = nth_z prev (nth k stage 0).
+Proof.
+  intros prev stage k Hk Hn. unfold compose_fwd.
+  set (f := fun x : Z => if x <? 0 then nth_z prev 0 else nth_z prev x).
+  rewrite (nth_indep _ 0 (f 0)) by (rewrite map_length; exact Hk).
+  rewrite map_nth. unfold f. destruct (nth k stage 0 <? 0) eqn:E; [lia|reflexivity].
+Qed.
+
+(* ------------------------------------------------------------------ the main pass alone *)
+
+(* the part of EngineLoop.Inv that does not need 0 <= cap *)
+Definition InvL (s : tstate) : Prop := length (ts_pm s) = length (ts_out s).
+
+Lemma word_mark_invl t inp s : InvL s -> InvL (word_mark t inp s).
+Proof. unfold word_mark, InvL. destruct (_ && _); [|tauto]. cbn [ts_out ts_pm]. tauto. Qed.
+
+Lemma emit_invl inp cap s d k s' : InvL s -> emit inp cap s d k = Some s' -> InvL s'.
+Proof.
+  unfold emit, InvL. destruct (_ || _); [discriminate|]. intros H He. injection He as <-.
+  cbn [ts_out ts_pm]. rewrite !app_length, rev_length, repeat_length. lia.
+Qed.
+
+Lemma advance_invl s k : InvL s -> InvL (advance s k).
+Proof. unfold InvL, advance. cbn [ts_out ts_pm]. tauto. Qed.
+
+Lemma numsign_emit_invl t inp cap pos s0 s1 : InvL s0 ->
+  numsign_emit t inp cap pos s0 = Some s1 -> InvL s1.
+Proof.
+  intros Hi. unfold numsign_emit. destruct (numsign t) as [nd|].
+  - destruct (_ && _).
+    + apply emit_invl. exact Hi.
+    + intros H. injection H as <-. exact Hi.
+  - intros H. injection H as <-. exact Hi.
+Qed.
+
+Lemma with_trace_invl idx s : InvL s -> InvL (with_trace idx s).
+Proof. unfold InvL, with_trace. cbn [ts_out ts_pm]. tauto. Qed.
+
+Lemma put_chars_invl t inp cap k : forall s s', InvL s ->
+  put_chars t inp cap k s = Some (Some s') -> InvL s'.
+Proof.
+  induction k as [|k IH]; intros s s' Hi; cbn [put_chars].
+  - intros H. injection H as <-. exact Hi.
+  - destruct (def_dots t (nth_z inp (ts_pos s))) as [d|]; [|discriminate].
+    destruct (emit inp cap s d 1) as [s1|] eqn:Ee; [|discriminate].
+    assert (Hi1 : InvL (advance s1 1)) by (apply advance_invl; exact (emit_invl _ _ _ _ _ _ Hi Ee)).
+    destruct (ts_pos (advance s1 1) >=? n inp).
+    + intros H. injection H as <-. exact Hi1.
+    + apply IH. exact Hi1.
+Qed.
+
+Lemma put_chars_partial_invl t inp cap k : forall s, InvL s ->
+  InvL (put_chars_partial t inp cap k s).
+Proof.
+  induction k as [|k IH]; intros s Hi; cbn [put_chars_partial]; [exact Hi|].
+  destruct (def_dots t (nth_z inp (ts_pos s))) as [d|]; [|exact Hi].
+  destruct (emit inp cap s d 1) as [s1|] eqn:Ee; [|exact Hi].
+  assert (Hi1 : InvL (advance s1 1)) by (apply advance_invl; exact (emit_invl _ _ _ _ _ _ Hi Ee)).
+  destruct (ts_pos (advance s1 1) >=? n inp); [exact Hi1|apply IH; exact Hi1].
+Qed.
+
+Lemma apply_rule_invl t inp cap s2 e : InvL s2 ->
+  match apply_rule t inp cap s2 e with
+  | Next s' => InvL s'
+  | Fail s' => InvL s'
+  | Unsupported => True
+  end.
+Proof.
+  intros Hi. unfold apply_rule. destruct (e_dots e) as [|d0 dr].
+  - destruct (put_chars t inp cap (Z.to_nat (len (e_chars e))) s2) as [[s3|]|] eqn:Ep.
+    + exact (put_chars_invl _ _ _ _ _ _ Hi Ep).
+    + apply put_chars_partial_invl. exact Hi.
+    + exact I.
+  - destruct (emit inp cap s2 (d0 :: dr) (len (e_chars e))) as [s3|] eqn:Ee; [|exact Hi].
+    apply advance_invl. exact (emit_invl _ _ _ _ _ _ Hi Ee).
+Qed.
+
+Lemma step_invl t sel inp cap s : InvL s ->
+  match step t sel inp cap s with
+  | Next s' => InvL s'
+  | Fail s' => InvL s'
+  | Unsupported => True
+  end.
+Proof.
+  intros Hi. rewrite step_unfold.
+  destruct (sel inp (ts_pos s)) as [[idx e]|]; [|exact I].
+  assert (Hw := word_mark_invl t inp s Hi).
+  destruct (numsign_emit t inp cap (ts_pos s) (word_mark t inp s)) as [s1|] eqn:En; [|exact Hw].
+  apply apply_rule_invl. apply with_trace_invl. exact (numsign_emit_invl _ _ _ _ _ _ Hw En).
+Qed.
+
+Definition res_len (r : tresult) : Prop :=
+  match r with TOk _ cells pm _ => length pm = length cells | _ => True end.
+
+Lemma finish_len t inp s : InvL s -> res_len (finish t inp s).
+Proof.
+  unfold InvL, finish, res_len. intros H. rewrite !firstn_length, !rev_length, H. reflexivity.
+Qed.
+
+Lemma loop_len t sel inp cap : forall fuel s, InvL s -> res_len (loop t sel inp cap fuel s).
+Proof.
+  induction fuel as [|f IH]; intros s Hi; [exact I|].
+  rewrite loop_unfold. destruct (ts_pos s >=? n inp).
+  - apply finish_len. apply word_mark_invl. exact Hi.
+  - pose proof (step_invl t sel inp cap s Hi) as Hs.
+    destruct (step t sel inp cap s) as [s'|s'|].
+    + apply IH. exact Hs.
+    + apply finish_len. exact Hs.
+    + exact I.
+Qed.
+
+Lemma translate_ref_len t mode inp cap consumed cells pm tr :
+  translate_ref t mode inp cap = TOk consumed cells pm tr -> length pm = length cells.
+Proof.
+  intros H. pose proof (loop_len t (select_ref t mode) inp cap (S (length inp)) (mkTS 0 [] [] 0 0 [])) as Hl.
+  unfold translate_ref, run in H. rewrite H in Hl. apply Hl. reflexivity.
+Qed.
+
+Lemma driver_main_only_l : forall t mode inp cap,
+  forward (mkPT t [] [] [] [] false 1) mode inp cap =
+  match translate_ref t mode inp cap with
+  | TOk consumed cells pm tr => DOk consumed cells pm tr
+  | TUnsupported => DUnsupported
+  | TOutOfFuel => DOutOfFuel
+  end.
+Proof.
+  intros t mode inp cap. unfold forward, num_passes.
+  cbn [pt_corr pt_main pt_np pt_correct pt_pass2 pt_pass3 pt_pass4].
+  destruct (translate_ref t mode inp cap) as [consumed cells pm tr| |] eqn:Et; [|reflexivity|reflexivity].
+  apply translate_ref_len in Et.
+  cbn [after_stage]. change (2 <=? 1) with false. change (3 <=? 1) with false. change (4 <=? 1) with false.
+  cbv iota.
+  f_equal.
+  - unfold nth_z, len. destruct (Z.of_nat (length cells) <? 0) eqn:E; [lia|].
+    rewrite Nat2Z.id, <- Et, app_nth2 by lia. rewrite Nat.sub_diag. reflexivity.
+  - rewrite <- Et, firstn_app, Nat.sub_diag, firstn_all. cbn [firstn]. apply app_nil_r.
+Qed.
+
+(* ------------------------------------------------------------------ a stage without rules *)
+
+Lemma firstn_snoc_nth (l : list Z) (k : nat) : (k < length l)%nat ->
+  firstn k l ++ [nth k l 0] = firstn (S k) l.
+Proof.
+  revert k. induction l as [|x l IH]; intros k Hk; cbn [length] in Hk; [lia|].
+  destruct k as [|k]; [reflexivity|]. cbn [firstn nth app]. f_equal. apply IH. lia.
+Qed.
+
+Lemma zrange_snoc (k : nat) : zrange 0 (Z.of_nat k) ++ [Z.of_nat k] = zrange 0 (Z.of_nat (S k)).
+Proof.
+  unfold zrange. rewrite !Z.sub_0_r, !Nat2Z.id, seq_S, map_app. reflexivity.
+Qed.
+
+Lemma sskip_end is_space inp fuel : sskip is_space inp fuel (len inp) = len inp.
+Proof.
+  destruct fuel as [|f]; cbn [sskip]; [reflexivity|].
+  unfold sn. rewrite Z.ltb_irrefl. reflexivity.
+Qed.
+
+Lemma empty_loop kind is_space inp cap : len inp <= cap ->
+  forall fuel k, (k <= length inp)%nat -> (length inp - k < fuel)%nat ->
+  sloop kind [] is_space inp cap fuel (mkPS (Z.of_nat k) (firstn k inp) (zrange 0 (Z.of_nat k)) true []) =
+  SOk (len inp) inp (zrange 0 (len inp)) [].
+Proof.
+  intros Hc. induction fuel as [|f IH]; intros k Hk Hf; [lia|].
+  cbn [sloop ps_pos]. unfold sn. destruct (Z.of_nat k >=? len inp) eqn:E.
+  - assert (k = length inp) by (unfold len in E; lia). subst k.
+    unfold sfinish. cbn [ps_pos ps_out ps_pm ps_trace rev]. rewrite firstn_all.
+    fold (len inp). destruct kind; [reflexivity|]. rewrite sskip_end. reflexivity.
+  - unfold len in E, Hc.
+    unfold sstep. cbn [ps_inc ps_pos ps_out ps_pm ps_trace find_rule].
+    assert (Hl : len (firstn k inp) = Z.of_nat k) by (unfold len; rewrite firstn_length; lia).
+    rewrite Hl. destruct (Z.of_nat k + 1 >? cap) eqn:E2; [lia|].
+    unfold nth_z. destruct (Z.of_nat k <? 0) eqn:E3; [lia|]. rewrite Nat2Z.id.
+    rewrite firstn_snoc_nth by lia. rewrite zrange_snoc.
+    replace (Z.of_nat k + 1) with (Z.of_nat (S k)) by lia.
+    apply IH; lia.
+Qed.
+
+Lemma empty_stage_l : forall kind is_space inp cap, len inp <= cap -> 0 <= cap ->
+  run_stage kind [] is_space inp cap = SOk (len inp) inp (zrange 0 (len inp)) [].
+Proof.
+  intros kind is_space inp cap Hc _. unfold run_stage, pass_chain. cbn [fold_left].
+  apply (empty_loop kind is_space inp cap Hc (stage_fuel inp cap) 0%nat); unfold stage_fuel; lia.
+Qed.
+
+Print Assumptions chain_perm_l.
+Print Assumptions chain_order_l.
+Print Assumptions find_rule_first_l.
+Print Assumptions find_rule_none_l.
+Print Assumptions match_shape_l.
+Print Assumptions literal_action_l.
+Print Assumptions compose_nth_l.
+Print Assumptions driver_main_only_l.
+Print Assumptions empty_stage_l.
